@@ -1,6 +1,7 @@
 package lib
 
 import (
+	"bytes"
 	"fmt"
 	"net"
 
@@ -226,10 +227,15 @@ func BuildDHCP(r *rec.Rec) (*protocol.DHCP, error) {
 	d.Operation, d.HardwareType, d.Options = protocol.DHCPOperation(r.U8("op")), r.U8("htype"), nil
 	d.HardwareLen, d.HardwareOpts = r.U8("hlen"), r.U8("hops")
 	d.Secs, d.Flags = r.U16("secs"), r.U16("flags")
-	d.ClientIP = net.IP(Own(r.Bytes("ciaddr")))
-	d.YourIP = net.IP(Own(r.Bytes("yiaddr")))
-	d.ServerIP = net.IP(Own(r.Bytes("siaddr")))
-	d.GatewayIP = net.IP(Own(r.Bytes("giaddr")))
+	// an all-zero address is what the constructors leave in place: keep their buffers then
+	for _, f := range []struct {
+		dst  *net.IP
+		name string
+	}{{&d.ClientIP, "ciaddr"}, {&d.YourIP, "yiaddr"}, {&d.ServerIP, "siaddr"}, {&d.GatewayIP, "giaddr"}} {
+		if b := r.Bytes(f.name); !bytes.Equal(b, []byte{0, 0, 0, 0}) {
+			*f.dst = net.IP(Own(b))
+		}
+	}
 	ch := r.Bytes("chaddr")
 	if int(d.HardwareLen) <= len(ch) {
 		ch = ch[:d.HardwareLen]
